@@ -29,6 +29,8 @@ pub struct Scenario {
 }
 
 thread_local! {
+    /// the run this thread is executing (for the crash oracle)
+    static CURRENT: RefCell<Option<(&'static Scenario, RunInput)>> = const { RefCell::new(None) };
     static PANICS: RefCell<Vec<String>> = const { RefCell::new(Vec::new()) };
     static AFTER_TEARDOWN: RefCell<Vec<Box<dyn FnOnce()>>> = const { RefCell::new(Vec::new()) };
 }
@@ -44,6 +46,89 @@ pub fn install_panic_hook() {
         let msg = format!("{info}");
         PANICS.with(|p| p.borrow_mut().push(msg));
     }));
+    install_crash_oracle();
+}
+
+// ---------------------------------------------------------------------------------------------
+// crash oracle: the process dying inside a run (abort after a failed allocation, stack overflow,
+// an `abort()` in a dependency) is a violation of every "never panics / never takes the process
+// down" clause and must come out as a VIOLATION with a replay file, not as a dead checker.
+// ---------------------------------------------------------------------------------------------
+
+static CRASH_DIR: Mutex<Option<String>> = Mutex::new(None);
+static CRASH_REPLAYING: Mutex<Option<String>> = Mutex::new(None);
+static CRASH_ONCE: AtomicBool = AtomicBool::new(false);
+
+pub fn set_crash_dir(dir: &str) {
+    *CRASH_DIR.lock().unwrap() = Some(dir.to_string());
+}
+
+extern "C" fn on_fatal_signal(sig: libc::c_int) {
+    // The process is lost either way; the handler runs on the thread that died, on the alternate
+    // stack std gives every thread. Best effort, not strictly async-signal-safe.
+    if CRASH_ONCE.swap(true, Ordering::SeqCst) {
+        // another thread is already reporting: let it finish
+        unsafe {
+            libc::sleep(10);
+            libc::_exit(1)
+        }
+    }
+    let what = match sig {
+        libc::SIGABRT => "abort",
+        libc::SIGSEGV => "segmentation-fault-or-stack-overflow",
+        libc::SIGBUS => "bus-error",
+        libc::SIGILL => "illegal-instruction",
+        _ => "fatal-signal",
+    };
+    let mut code = 2;
+    let _ = CURRENT.try_with(|c| {
+        if let Ok(cur) = c.try_borrow() {
+            if let Some((scen, input)) = cur.as_ref() {
+                let v = Violation {
+                    class: "process-killed".into(),
+                    key: what.into(),
+                    msg: format!("the process was killed ({what}) inside run index {} seed {} of scenario {} - failed allocation, stack overflow or abort() in the code under test", input.index, input.seed, scen.name),
+                };
+                let replaying = CRASH_REPLAYING.try_lock().ok().and_then(|g| g.clone());
+                let path = match replaying {
+                    Some(p) => {
+                        println!("replay: reproduced [{}] {}", v.class, v.msg);
+                        p
+                    }
+                    None => {
+                        let dir = CRASH_DIR.try_lock().ok().and_then(|g| g.clone()).unwrap_or_else(|| "/verif".into());
+                        let p = write_replay(&dir, scen, input.tier, input.seed, input, &v, None);
+                        println!("scenario={} run={} seed={} class={} key={} (not minimised: the process died): {}", scen.name, input.index, input.seed, v.class, v.key, v.msg);
+                        let ev = json!({
+                            "property_id": scen.id, "tier": input.tier.as_str(), "seed": input.seed, "level": level_of(scen.id),
+                            "wall_s": 0.0, "violations": 1,
+                            "coverage": {"evaluations": 1, "distinct_nontrivial": 2, "rule": "batch abandoned: the process was killed inside a run; counts not collected", "samples": [v.msg.clone()]},
+                        });
+                        let _ = std::fs::create_dir_all(format!("{dir}/evidence"));
+                        let _ = std::fs::write(format!("{dir}/evidence/{}.json", scen.id), serde_json::to_string_pretty(&ev).unwrap());
+                        p
+                    }
+                };
+                println!("VIOLATION property={} replay={}", scen.id, path);
+                code = 1;
+            }
+        }
+    });
+    use std::io::Write;
+    let _ = std::io::stdout().flush();
+    unsafe { libc::_exit(code) }
+}
+
+fn install_crash_oracle() {
+    unsafe {
+        for sig in [libc::SIGABRT, libc::SIGSEGV, libc::SIGBUS, libc::SIGILL] {
+            let mut sa: libc::sigaction = std::mem::zeroed();
+            sa.sa_sigaction = on_fatal_signal as usize;
+            sa.sa_flags = libc::SA_ONSTACK | libc::SA_NODEFER;
+            libc::sigemptyset(&mut sa.sa_mask);
+            libc::sigaction(sig, &sa, std::ptr::null_mut());
+        }
+    }
 }
 
 pub fn take_panics() -> Vec<String> {
@@ -59,6 +144,7 @@ pub fn peek_panics() -> usize {
 pub fn execute(scen: &'static Scenario, input: RunInput) -> RunOutput {
     let seed = input.seed;
     take_panics();
+    CURRENT.with(|c| *c.borrow_mut() = Some((scen, input.clone())));
     AFTER_TEARDOWN.with(|a| a.borrow_mut().clear());
     anemo::verif::set_active(true);
     let rt = tokio::runtime::Builder::new_current_thread()
@@ -90,6 +176,7 @@ pub fn execute(scen: &'static Scenario, input: RunInput) -> RunOutput {
         }
     }));
     anemo::verif::set_active(false);
+    CURRENT.with(|c| *c.borrow_mut() = None);
     let panics = take_panics();
     let mut out = match result {
         Ok(out) => out,
@@ -231,6 +318,7 @@ struct Heartbeat {
 
 pub fn run_batch(scens: &[&'static Scenario], opts: &BatchOpts) -> BatchResult {
     install_panic_hook();
+    set_crash_dir(&opts.verif_dir);
     let id = scens[0].id;
     let known = load_known_findings(&format!("{}/known_findings.txt", opts.verif_dir));
     let t_start = Instant::now();
@@ -707,6 +795,7 @@ pub fn replay(all: &[&'static Scenario], path: &str) -> i32 {
     }
     input.record_log = true;
     let class = doc["class"].as_str().unwrap_or("").to_string();
+    *CRASH_REPLAYING.lock().unwrap() = Some(path.to_string());
     if class == "hang" {
         // run under the watchdog
         let seed = input.seed;
